@@ -44,6 +44,9 @@ type c15Exchange struct {
 	// HalfClose (copy): the client shuts down its sending side after its stream and only then
 	// reads; the backend answers when it has seen the end of the stream
 	HalfClose bool `json:"halfclose"`
+	// Portless (copy): 1 or 2 = go through one of the two copy proxies whose director names a host WITHOUT a port
+	// (the backend's port is then the port the client connected to); 0 = the ordinary copy proxy
+	Portless int `json:"portless"`
 }
 
 type c15Seen struct {
@@ -62,6 +65,9 @@ type c15Result struct {
 	Decoy   int                      `json:"decoy_connections"`
 	Events  []map[string]interface{} `json:"events"`
 	Notes   []string                 `json:"notes,omitempty"`
+	// BackendAt: per client, the address of the backend that received its stream (copy)
+	BackendAt []string `json:"backend_at,omitempty"`
+	WantAt    []string `json:"want_at,omitempty"`
 }
 
 func bodyBytes(tag string, n int) []byte {
@@ -111,6 +117,9 @@ type c15Rig struct {
 	httpSeen                       map[string][]c15Seen // by X-Client header
 	httpReplied                    map[string][]c15Seen
 	copySeen                       map[string][]byte
+	copyAt                         map[string]string // client name -> address of the backend that saw it
+	proxyPortless                  [2]string         // the two proxies behind the port-less director
+	backendPortless                [2]string
 	dnsSeen                        map[string][][]byte
 	decoy                          int
 	replyPlan                      map[string][]int
@@ -219,6 +228,7 @@ func (r *c15Rig) copyBackend(l net.Listener) {
 				r.mu.Lock()
 				if name != "" {
 					r.copySeen[name] = append([]byte{}, all...)
+					r.copyAt[name] = c.LocalAddr().String()
 				}
 				r.mu.Unlock()
 				if err != nil {
@@ -400,7 +410,11 @@ func (r *c15Rig) run(ex c15Exchange) c15Result {
 					}
 				}
 			case "copy":
-				c, err := net.DialTimeout("tcp", r.proxyCopy, 3*time.Second)
+				target := r.proxyCopy
+				if ex.Portless == 1 || ex.Portless == 2 {
+					target = r.proxyPortless[ex.Portless-1]
+				}
+				c, err := net.DialTimeout("tcp", target, 3*time.Second)
 				if err != nil {
 					note("dial proxy: %v", err)
 					return
@@ -439,6 +453,16 @@ func (r *c15Rig) run(ex c15Exchange) c15Result {
 				time.Sleep(30 * time.Millisecond)
 				r.mu.Lock()
 				res.Backend[ci] = []c15Seen{{BodySHA: compact(r.copySeen[name])}}
+				if ex.Portless == 1 || ex.Portless == 2 {
+					nmu.Lock()
+					for len(res.BackendAt) <= ci {
+						res.BackendAt = append(res.BackendAt, "")
+						res.WantAt = append(res.WantAt, "")
+					}
+					res.BackendAt[ci] = r.copyAt[name]
+					res.WantAt[ci] = r.backendPortless[ex.Portless-1]
+					nmu.Unlock()
+				}
 				r.mu.Unlock()
 			case "dns":
 				pc, err := net.Dial("udp", r.proxyDNS)
@@ -506,7 +530,7 @@ func c15Main(args []string) error {
 	fs.Parse(args)
 	quietLogs()
 	defer cleanupScratch()
-	rig := &c15Rig{httpSeen: map[string][]c15Seen{}, httpReplied: map[string][]c15Seen{}, copySeen: map[string][]byte{}, dnsSeen: map[string][][]byte{},
+	rig := &c15Rig{httpSeen: map[string][]c15Seen{}, httpReplied: map[string][]c15Seen{}, copySeen: map[string][]byte{}, copyAt: map[string]string{}, dnsSeen: map[string][][]byte{},
 		replyPlan: map[string][]int{}, replyCut: map[string]int{}, replyAtEOF: map[string]bool{}}
 	hb, hbAddr := listenLocal()
 	cb, cbAddr := listenLocal()
@@ -525,6 +549,18 @@ func c15Main(args []string) error {
 	// a parallel lab process nor a client socket takes one between our choosing it and the server binding it
 	p1, p2, p3 := freePort(), freePort(), freePort()
 	rig.proxySSH = fmt.Sprintf("127.0.0.1:%d", freePort())
+	// two copy proxies on 127.0.0.1:p5 / p6 share a director whose host (127.0.0.2) names no port: their backends
+	// listen on the same port numbers of that host
+	p5, p6 := freePort(), freePort()
+	for i, p := range []int{p5, p6} {
+		bl, err := net.Listen("tcp", fmt.Sprintf("127.0.0.2:%d", p))
+		if err != nil {
+			return err
+		}
+		go rig.copyBackend(bl)
+		rig.proxyPortless[i] = fmt.Sprintf("127.0.0.1:%d", p)
+		rig.backendPortless[i] = fmt.Sprintf("127.0.0.2:%d", p)
+	}
 	rig.proxyHTTP = fmt.Sprintf("127.0.0.1:%d", p1)
 	rig.proxyCopy = fmt.Sprintf("127.0.0.1:%d", p2)
 	rig.proxyDNS = fmt.Sprintf("127.0.0.1:%d", p3)
@@ -557,6 +593,21 @@ director="dssh"
 [[port]]
 port="tcp/%s"
 services=["sp"]
+[director.dportless]
+type="forward"
+host="127.0.0.2"
+[service.cp5]
+type="copy"
+director="dportless"
+[service.cp6]
+type="copy"
+director="dportless"
+[[port]]
+port="tcp/%s"
+services=["cp5"]
+[[port]]
+port="tcp/%s"
+services=["cp6"]
 [service.hp]
 type="http-proxy"
 director="dhttp"
@@ -575,7 +626,7 @@ services=["cp"]
 [[port]]
 port="udp/%s"
 services=["dp"]
-`, hbAddr, cbAddr, udp.LocalAddr().String(), dlAddr, sbAddr, rig.proxySSH, rig.proxyHTTP, rig.proxyCopy, rig.proxyDNS)
+`, hbAddr, cbAddr, udp.LocalAddr().String(), dlAddr, sbAddr, rig.proxySSH, rig.proxyPortless[0], rig.proxyPortless[1], rig.proxyHTTP, rig.proxyCopy, rig.proxyDNS)
 	if _, err := startServerAny(cfg); err != nil {
 		return err
 	}
